@@ -36,7 +36,7 @@ def main():
         scen["seed"] = seed_override
     run = impl_trace.Run(scen, step_timeout=scen.get("step_timeout", 6))
     run.seed_globals = False
-    out = impl_trace.two_episodes(run, spec["actions"], other=other)
+    out = impl_trace.two_episodes(run, spec["actions"], other=other, junk=junk)
     json.dump(out, sys.stdout)
 
 
